@@ -1,4 +1,4 @@
-CONSTANTS Tasks = {1, 2, 3}  Bug = "none"  MaxLen = 9
+CONSTANTS Tasks = {1, 2, 3}  Bug = "none"  MaxLen = 10
 INIT Init
 NEXT Next
 INVARIANT MutualExclusion
